@@ -80,6 +80,7 @@ type loopCut struct {
 }
 
 type Frame struct {
+	curBlock    *ssa.BasicBlock // block being executed (scope of name resolution for body-level clauses)
 	c           *FnCtx
 	fn          *ssa.Function
 	vals        map[ssa.Value]*Val
@@ -820,13 +821,32 @@ func (fr *Frame) localByName(st *State, name string) *Val {
 	return nil
 }
 
+// inScope: the declaration of local a reaches the block being executed (its Alloc dominates it);
+// distinguishes same-named locals of sibling scopes (the `l`, `i` of several switch cases).
+func (fr *Frame) inScope(a *ssa.Alloc) bool {
+	if fr.curBlock == nil || a.Block() == nil || fr.curBlock.Parent() != a.Parent() {
+		return true
+	}
+	return a.Block() == fr.curBlock || a.Block().Dominates(fr.curBlock)
+}
+
 func (fr *Frame) localByName1(st *State, name string) *Val {
+	if v := fr.localByName2(st, name, true); v != nil {
+		return v
+	}
+	return fr.localByName2(st, name, false)
+}
+
+func (fr *Frame) localByName2(st *State, name string, scoped bool) *Val {
 	var best *ssa.Alloc
 	for _, l := range fr.fn.Locals {
 		if l.Comment != name {
 			continue
 		}
 		if !fr.allocAt[l] {
+			continue
+		}
+		if scoped && !fr.inScope(l) {
 			continue
 		}
 		if best == nil || l.Pos() >= best.Pos() { // ties (position-less hidden locals such as rangeindex): the latest allocated
@@ -837,7 +857,7 @@ func (fr *Frame) localByName1(st *State, name string) *Val {
 		// heap-allocated (escaping) locals are Allocs with Heap=true and not in Locals
 		for _, b := range fr.fn.Blocks {
 			for _, in := range b.Instrs {
-				if a, ok := in.(*ssa.Alloc); ok && a.Comment == name && fr.allocAt[a] {
+				if a, ok := in.(*ssa.Alloc); ok && a.Comment == name && fr.allocAt[a] && (!scoped || fr.inScope(a)) {
 					if best == nil || a.Pos() > best.Pos() {
 						best = a
 					}
